@@ -1,6 +1,5 @@
 META = {"level": "proof"}
 def obligations(repo):
     return [
-        dict(id="P09.fresh", prop="P09", harness="harness/p09b_h.c", entry="h_p", enforce="f", defines={"P_INV": 1}, replace=["my_alloc", "my_realloc"], loops=True, unwind="auto", strength="U"),
-        dict(id="P09.wok", prop="P09", harness="harness/p09b_h.c", entry="h_p", enforce="f", defines={"P_INV": 2}, replace=["my_alloc", "my_realloc"], loops=True, unwind="auto", strength="U"),
+        dict(id="P09.inplace", prop="P09", harness="harness/p09b_h.c", entry="h_p", enforce="f", replace=["my_alloc", "my_realloc"], loops=True, unwind=9, strength="U", timeout=120),
     ]
